@@ -15,6 +15,10 @@ CORPUS = [
     "PROCEDURE even(n) {\nIF (n == 0) { RETURN TRUE }\nRETURN odd(n - 1)\n}\nPROCEDURE odd(n) {\nIF (n == 0) { RETURN FALSE }\nRETURN even(n - 1)\n}\nDISPLAY(even(5))\n",
     "DISPLAY(f(1))\nPROCEDURE f(x) { RETURN x }\n", "PROCEDURE f(x) { RETURN 1 }\nPROCEDURE f(x, y) { RETURN 2 }\nDISPLAY(f(1, 2))\n",
     "PROCEDURE f(p, p) { RETURN p }\nDISPLAY(f(1, 2))\n",
+    "PROCEDURE f(n) {\ni <- 0\nREPEAT UNTIL (t(1, i >= 3)) {\ni <- i + 1\nIF (i == 2) { RETURN i }\n}\nRETURN 0\n}\nDISPLAY(f(1))\n",
+    "PROCEDURE f(l) {\nREPEAT UNTIL (l[1] > 5) {\nx <- REMOVE(l, 1)\nRETURN x\n}\nRETURN 0\n}\nDISPLAY(f([1]))\n",
+    "PROCEDURE f(l) {\nFOR EACH x IN l {\nREPEAT t(1, 2) TIMES {\nIF (t(2, x > 1)) { RETURN x }\n}\n}\nRETURN t(3, 0)\n}\nDISPLAY(f([1, 2, 3]))\n",
+    "PROCEDURE f() {\nRETURN\nDISPLAY(\"dead\")\n}\nDISPLAY(f())\nPROCEDURE g(l) {\nIF (TRUE) {\nRETURN\nAPPEND(l, 1)\n}\n}\nm <- [0]\ng(m)\nDISPLAY(m)\n",
 ]
 
 
